@@ -43,15 +43,15 @@ def random_menu(rng, n, ids_from=1, arrays=True, nonnumeric=True, ticks=(1, 8), 
 
 
 def sim_scripts(tables, menu, flags, num, depth, seed, workdir, max_flushes=4, max_crashes=2,
-                allow_close=True, trunc_every=10, allow_crash=True, field_menu=None, where_menu=None):
+                allow_close=True, trunc_every=10, allow_crash=True, field_menu=None, where_menu=None, max_scans=0):
     """Behaviours of SimStore as lists of action records (TLC -simulate)."""
     mod, cfg = constants_module("SimRun", "SimStore", tables,
                                 {"c_Menu": [tla_point(p) for p in menu], "c_Sorted": {False},
                                  "c_FieldMenu": {t.name: (field_menu or {}).get(t.name, []) for t in tables},
                                  "c_WhereMenu": {t.name: (where_menu or {}).get(t.name, []) for t in tables}})
     cfg = ("SPECIFICATION SimSpec\n" + cfg + flags_cfg(flags, trunc_every) +
-           "  MaxFlushes = %d\n  MaxCrashes = %d\n  Depth = %d\n  AllowClose = %s\n  AllowCrash = %s\n"
-           "INVARIANT Emit\nCHECK_DEADLOCK FALSE\n" % (max_flushes, max_crashes, depth, tla(allow_close), tla(allow_crash)))
+           "  MaxFlushes = %d\n  MaxCrashes = %d\n  Depth = %d\n  AllowClose = %s\n  AllowCrash = %s\n  MaxScans = %d\n"
+           "INVARIANT Emit\nCHECK_DEADLOCK FALSE\n" % (max_flushes, max_crashes, depth, tla(allow_close), tla(allow_crash), max_scans))
     r = run_tlc(mod, "SimRun", cfg, workdir, workers=1, timeout=600,
                 extra=["-simulate", "num=%d" % num, "-depth", str(depth + 1), "-seed", str(seed)])
     hists = []
@@ -94,6 +94,12 @@ def scenario_from_hist(scn, tables, menu, hist, opts=None, probe_every=True, int
             if probe_every:
                 cmds += probes([cur[t.name] for t in tables], only=h["t"])
             continue
+        if a == "ScanBegin":
+            cmds.append({"a": "ScanBegin", "t": h["t"], "mem": h["mem"], "pause": h["j"]})
+            continue
+        if a == "ScanEnd":
+            cmds.append({"a": "ScanEnd", "t": h["t"]})
+            continue
         if a == "Insert":
             cmds.append(render_insert(menu[h["i"] - 1], int_vals=int_vals))
         elif a == "Probe":
@@ -112,6 +118,14 @@ def scenario_from_hist(scn, tables, menu, hist, opts=None, probe_every=True, int
                 cmds += probes([cur[t.name] for t in tables], only=h["t"], subsets=subsets if a == "FlushSwap" else None)
     if not up:
         cmds.append({"a": "Start"})
+    open_scans = []
+    for h in hist:
+        if h["a"] == "ScanBegin":
+            open_scans.append(h["t"])
+        elif h["a"] == "ScanEnd":
+            open_scans.remove(h["t"])
+    for t in open_scans:
+        cmds.append({"a": "ScanEnd", "t": t})
     cmds.append({"a": "Settle"})
     cmds += probes(tables)
     o = {"tickMs": 1000, "stream": STREAM}
@@ -264,7 +278,7 @@ def model_check(module, tables, menu, flags, invs, props, workdir, max_flushes=3
 
 def counterexample_script(tables, menu, flags, inv, workdir, **kw):
     """Shortest behaviour of SimStore violating inv, as an action list."""
-    extra_cfg = "  Depth = 1000\n  AllowClose = FALSE\n  AllowCrash = TRUE\nVIEW SimView\n"
+    extra_cfg = "  Depth = 1000\n  AllowClose = FALSE\n  AllowCrash = TRUE\n  MaxScans = 0\nVIEW SimView\n"
     r = model_check("SimStoreCex", tables, menu, flags, ["Cex_" + inv], [], workdir,
                     name="CexRun", extra_cfg=extra_cfg, **kw)
     m = re.search(r'<<"ZVCEX", "(.*)">>', r.out)
@@ -774,11 +788,91 @@ def check_C15(args):
                        end_oracle=False, decision_lines=True, extra_cov=extra_cov)
 
 
+# ---------------------------------------------------------------- C18
+
+C18_TABLES = [Table("a", fields=("f", "g"), where="all", group=("a", "b"), res=2),
+              Table("b", fields=("f",), where="all", group=("a",), res=1)]
+
+
+def check_C18(args):
+    def mc_jobs(quick):
+        # the snapshot rule is an axiom of the specification (a scan returns the
+        # view captured at its start); the exhaustive run checks that the
+        # pipeline it races with keeps its own invariants
+        return [dict(tables=MC_TABLES, menu=MC_MENU, max_flushes=3, max_crashes=0)]
+
+    def gen(rng, quick, work, flags):
+        n_menus, per = (6, 20) if quick else (50, 100)
+        for mi in range(n_menus):
+            tabs = C18_TABLES
+            # several points per key and period so that later inserts land in rows
+            # that are already delivered, not yet delivered, and in new rows
+            menu = random_menu(rng, rng.randint(7, 12), ticks=(1, 5))
+            hs = sim_scripts(tabs, menu, flags, per, rng.choice([45, 60]), rng.randint(1, 10 ** 6),
+                             os.path.join(work, "sim%d" % mi), max_flushes=6, max_crashes=0, allow_crash=False,
+                             allow_close=False, max_scans=4)
+            for j, h in enumerate(hs):
+                yield scenario_from_hist("C18-%d-%d" % (mi, j), tabs, menu, h, probe_every=False), tabs
+        # directed placements: build a table state, hold a scan after its j-th
+        # row, then drive further points (into rows already delivered, rows not
+        # yet delivered and new rows) and optionally a flush through the gates
+        # before the scan is released
+        for di in range(40 if quick else 600):
+            tabs = C18_TABLES
+            n0, n1 = rng.randint(2, 6), rng.randint(1, 5)
+            menu = random_menu(rng, n0 + n1, ticks=(1, 4), arrays=False, nonnumeric=False)
+            t = rng.choice(tabs).name
+            h = [{"a": "Start"}]
+
+            def drive(i, tables_to_step):
+                out = [{"a": "Insert", "i": i}]
+                for tn in tables_to_step:
+                    out += [{"a": "Decide", "t": tn}, {"a": "Apply", "t": tn}]
+                return out
+
+            def flush(tn):
+                return [{"a": "FlushBegin", "t": tn}, {"a": "FlushTemp", "t": tn}, {"a": "FlushRename", "t": tn},
+                        {"a": "FlushSwap", "t": tn}]
+            both = [x.name for x in tabs]
+            for i in range(1, n0 + 1):
+                h += drive(i, both)
+                if rng.random() < 0.2:
+                    h += flush(t)
+            h.append({"a": "ScanBegin", "t": t, "mem": True, "j": rng.randint(0, 3)})
+            for i in range(n0 + 1, n0 + n1 + 1):
+                h += drive(i, both)
+                if rng.random() < 0.25:
+                    h += flush(t)
+            h.append({"a": "ScanEnd", "t": t})
+            yield scenario_from_hist("C18-d%d" % di, tabs, menu, h, probe_every=False), tabs
+
+    def extra_cov(scenarios, traces):
+        held = racing = 0
+        for s in scenarios:
+            acts = [c["a"] for c in s["cmds"]]
+            for i, a in enumerate(acts):
+                if a == "ScanBegin":
+                    held += 1
+                    j = i + 1
+                    while j < len(acts) and not (acts[j] == "ScanEnd" and s["cmds"][j]["t"] == s["cmds"][i]["t"]):
+                        if acts[j] in ("Apply", "FlushSwap") and s["cmds"][j]["t"] == s["cmds"][i]["t"]:
+                            racing += 1
+                            break
+                        j += 1
+        return {"held_scans": held, "held_scans_overlapping_an_apply_or_swap_of_their_table": racing}
+
+    return store_check(args, "C18", mc_jobs, gen, ["MemLockStep", "AtMostOnce"], True,
+                       ["a scan is held by blocking its row callback after the j-th flat row (j = 1..3); "
+                        "inserts, row-store applies and flush steps are then driven through the gates before it is released",
+                        "schema static, all points inside the retention window"] + BASE_ASSUMPTIONS[:1],
+                       end_oracle=False, extra_cov=extra_cov)
+
+
 def tables_from_defs(sc):
     """Rebuild Table objects of a stored scenario (replay)."""
     out = []
     for d in sc["tables"]:
-        cand = [t for t in MC_TABLES + C03_TABLES + C01_TABLES + C14_TABLES + C14_TABLES2 + C15_TABLES if t.define() == d]
+        cand = [t for t in MC_TABLES + C03_TABLES + C01_TABLES + C14_TABLES + C14_TABLES2 + C15_TABLES + C18_TABLES if t.define() == d]
         if cand:
             out.append(cand[0])
         else:
@@ -786,4 +880,4 @@ def tables_from_defs(sc):
     return out
 
 
-CHECKS = {"C15": check_C15, "C14": check_C14, "C01": check_C01, "C02": check_C02, "C03": check_C03}
+CHECKS = {"C18": check_C18, "C15": check_C15, "C14": check_C14, "C01": check_C01, "C02": check_C02, "C03": check_C03}
